@@ -348,7 +348,7 @@ class CasJsonDeserializer:
 
     def _parse_primitive_array(self, type_name: str, elements: [list, str]) -> List:
         if elements and type_name == TYPE_NAME_BYTE_ARRAY:
-            return base64.b64decode(elements)
+            return list(base64.b64decode(elements))
         if elements and (type_name == TYPE_NAME_FLOAT_ARRAY or type_name == TYPE_NAME_DOUBLE_ARRAY):
             return [self._parse_float_value(v) for v in elements]
         else:
